@@ -27,6 +27,7 @@ def run(ctx):
     selfp = ("param", 1, "self")
     i_f, k_f, s_f = ("field", selfp, "i"), ("field", selfp, "k"), ("field", selfp, "skip_until")
     fill = mk("Lt", i_f, k_f)
+    fill_len = mk("Lt", ("call", "std::vec::Vec::len", (("field", selfp, "reservoir"),)), k_f)   # equivalent: len = min(i, k)
     res_phase = mk("Lt", i_f, mk("Mul", const(4), k_f))
     gap_guard = mk("Le", s_f, i_f)
     pe = PathEnumerator(add, prog, ctx.summ)
@@ -35,8 +36,10 @@ def run(ctx):
     order_ok = True
     for p in paths:
         facts = pe.path_facts(p)
-        seq = [repr(c) for c, _ in facts]
+        seq = [repr(fill) if repr(c) == repr(fill_len) else repr(c) for c, _ in facts]
         fd = {repr(c): t for c, t in facts}
+        if repr(fill) not in fd and repr(fill_len) in fd:
+            fd[repr(fill)] = fd[repr(fill_len)]
         if fd.get(repr(fill)) is True:
             cls["fill"].append(p)
         elif fd.get(repr(fill)) is False and fd.get(repr(res_phase)) is True:
